@@ -19,8 +19,9 @@ DESIGN_REF = "DESIGN.md §3.2, §4 C04"
 RULE = (
     "cases = (client program: 1-3 watches incl. equal-key schedules, 1-3 handlers some calling the API re-entrantly at "
     "their k-th callback, scripted emitters with unique events and deliberate adjacent duplicates, 0-2 API threads with "
-    "1-3 calls from schedule/unschedule/add_handler_for_watch/remove_handler_for_watch/unschedule_all; schedule).  "
-    "Exhaustive: DFS with <= k preemptions (k=1 quick, 2 thorough) over 6 fixed programs; random: Hypothesis programs x "
+    "1-3 calls from schedule/unschedule/add_handler_for_watch/remove_handler_for_watch/unschedule_all, in one program of "
+    "four a second running observer of the same process on the same paths with a handler of its own; schedule).  "
+    "Exhaustive: DFS with <= k preemptions (k=1 quick, 2 thorough) over 8 fixed programs; random: Hypothesis programs x "
     "random schedules.  non-trivial = >= 1 preemption taken and >= 1 registry mutation (API call from a thread or a "
     "handler) overlapping the event stream; distinct = digest of (program, schedule decisions)"
 )
@@ -110,6 +111,8 @@ def check(prog, r, s):
         cl.append("reentrant-call")
     if must:
         cl.append("must-deliver-pairs")
+    if prog.get("second_observer"):
+        cl.append("second-observer-in-process")
     return bool(r.preemptions and mut), cl
 
 
@@ -125,6 +128,8 @@ FIXED = [
     P(["/p0", "/p1"], {"/p0": [0, 1], "/p1": [0]}, [{}, {"reentrant": {"at": 1, "call": ["schedule", 1, 0]}}], [["schedule", 0, 0], ["schedule", 1, 1]], [[["unschedule_all"]]]),
     P(["/p0"], {"/p0": [0, 1]}, [{}, {}, {}], [["schedule", 0, 0]], [[["add", 1, 0]], [["add", 2, 0], ["remove", 0, 0]]]),
     P(["/p0", "/p1"], {"/p0": [0, 1, 0], "/p1": [0, 0, 1]}, [{}], [["schedule", 0, 0], ["schedule", 0, 1]], []),
+    # a second observer in the same process watches the same path
+    dict(P(["/p0"], {"/p0": [0, 1, 2]}, [{}, {}], [["schedule", 0, 0]], [[["add", 1, 0]]]), second_observer=True),
 ]
 
 NSH = 16
